@@ -1,5 +1,476 @@
 import Adb.Spec.Verdict
-/- C05 — theorems follow. -/
+/-
+  C05 — Rule optimisation never changes any verdict.
+
+  `fuse_matches`: a fused rule matches a request exactly when one of the rules it was fused from does,
+  through every matcher path a fusable rule can take (plain, left/right/both anchored, wildcard/separator
+  regex, complete regex) and for `Simple`, `AnyOf` and empty patterns alike; the tag gate is unchanged.
+  `optimizeRules_any`: optimising a bucket preserves "some active rule of the bucket matches".
+-/
 namespace Adb.Net
-theorem placeholder_C05 : True := trivial
+open Adb
+
+/-- a filter part produced by the parser or by fusion is never an empty `AnyOf` -/
+def WFPart (r : Rule) : Prop := r.filter ≠ .anyOf []
+
+private theorem items_ne_nil {r : Rule} (hw : WFPart r) (he : r.filter ≠ .empty) : r.filter.items ≠ [] := by
+  unfold WFPart at hw
+  cases hf : r.filter with
+  | empty => exact absurd hf he
+  | simple s => simp [FilterPart.items]
+  | anyOf ss =>
+    simp only [FilterPart.items]
+    intro h; subst h; exact hw hf
+
+theorem testBit_setBit (m bit i : Nat) (v : Bool) :
+    (setBit m bit v).testBit i = if i = bit then v else m.testBit i := by
+  unfold setBit
+  split
+  · rename_i h
+    split
+    · rename_i hi; subst hi; simpa using h
+    · rfl
+  · rename_i h
+    simp only [Nat.testBit_xor, Nat.testBit_shiftLeft]
+    split
+    · rename_i hi; subst hi
+      simp only [Nat.le_refl, decide_true, Nat.sub_self, Nat.testBit_zero, Nat.one_mod, decide_true,
+        Bool.and_self, Bool.xor_true]
+      cases hm : m.testBit i <;> cases v <;> simp_all
+    · rename_i hi
+      have : (decide (bit ≤ i) && (1 : Nat).testBit (i - bit)) = false := by
+        by_cases hle : bit ≤ i
+        · have hpos : i - bit ≠ 0 := by omega
+          cases hk : i - bit with
+          | zero => exact absurd hk hpos
+          | succ k => simp [Nat.testBit_succ]
+        · simp [hle]
+      simp [this]
+
+theorem setBit_same (m bit : Nat) : setBit m bit (m.testBit bit) = m := by
+  unfold setBit; simp
+
+/-- what a (non hostname-anchored) rule's pattern test looks like in terms of its pattern items -/
+def itemTest (mask : Mask) (q : Request) (f : Str) : Bool :=
+  let url := if has mask Gen.MATCH_CASE then q.url else q.urlLower
+  if has mask Gen.IS_COMPLETE_REGEX then f.isEmpty
+  else if has mask Gen.IS_REGEX then
+    f.isEmpty || regexOne (has mask Gen.IS_LEFT_ANCHOR) (has mask Gen.IS_RIGHT_ANCHOR) f url
+  else if has mask Gen.IS_LEFT_ANCHOR && has mask Gen.IS_RIGHT_ANCHOR then url == f
+  else if has mask Gen.IS_LEFT_ANCHOR then f.isPrefixOf url
+  else if has mask Gen.IS_RIGHT_ANCHOR then f.isSuffixOf url
+  else (findSub f url).isSome
+
+theorem checkPattern_items (r : Rule) (q : Request) (hh : r.isHostnameAnchor = false) :
+    checkPattern r q = (r.filter.items.isEmpty || r.filter.items.any (itemTest r.mask q) ||
+      (r.isCompleteRegex && r.rx)) := by
+  unfold checkPattern
+  simp only [hh, Bool.false_eq_true, if_false]
+  cases hc : r.isCompleteRegex with
+  | true =>
+    have hc' : has r.mask Gen.IS_COMPLETE_REGEX = true := hc
+    simp only [Bool.or_true, if_true, Bool.true_and]
+    unfold regexMatches
+    simp only [hc, Bool.not_true, Bool.and_false, Bool.false_eq_true, if_false, if_true]
+    have hit : itemTest r.mask q = fun f => f.isEmpty := by
+      funext f; unfold itemTest; simp [hc']
+    rw [hit]
+    cases h1 : r.filter.items.any (·.isEmpty) <;> cases h2 : r.filter.items.isEmpty <;> simp
+  | false =>
+    have hc' : has r.mask Gen.IS_COMPLETE_REGEX = false := hc
+    simp only [Bool.or_false, Bool.false_and]
+    cases hr : r.isRegex with
+    | true =>
+      have hr' : has r.mask Gen.IS_REGEX = true := hr
+      simp only [if_true]
+      unfold regexMatches
+      simp only [hr, hc, Bool.not_true, Bool.false_and, Bool.false_eq_true, if_false]
+      have hit : itemTest r.mask q = fun f => f.isEmpty ||
+          regexOne r.isLeftAnchor r.isRightAnchor f (reqUrl r q) := by
+        funext f; unfold itemTest reqUrl Rule.isLeftAnchor Rule.isRightAnchor Rule.matchCase
+        simp [hc', hr']
+      rw [hit]
+      cases h1 : r.filter.items.any (·.isEmpty) with
+      | true =>
+        simp only [if_true]
+        have : r.filter.items.any (fun f => f.isEmpty || regexOne r.isLeftAnchor r.isRightAnchor f (reqUrl r q)) = true := by
+          simp only [List.any_eq_true] at h1 ⊢
+          obtain ⟨x, hx, he⟩ := h1
+          exact ⟨x, hx, by simp [he]⟩
+        simp [this]
+      | false =>
+        simp only [Bool.false_eq_true, if_false]
+        cases h2 : r.filter.items.isEmpty with
+        | true => simp
+        | false =>
+          simp only [Bool.false_eq_true, if_false, Bool.false_or]
+          rw [Bool.eq_iff_iff]
+          simp only [List.any_eq_true, Bool.or_eq_true]
+          simp only [List.any_eq_false] at h1
+          constructor
+          · rintro ⟨x, hx, h⟩; exact ⟨x, hx, Or.inr h⟩
+          · rintro ⟨x, hx, h | h⟩
+            · exact absurd h (by simpa using h1 x hx)
+            · exact ⟨x, hx, h⟩
+    | false =>
+      have hr' : has r.mask Gen.IS_REGEX = false := hr
+      simp only [Bool.false_eq_true, if_false]
+      have hit : itemTest r.mask q = fun f =>
+          if r.isLeftAnchor && r.isRightAnchor then reqUrl r q == f
+          else if r.isLeftAnchor then f.isPrefixOf (reqUrl r q)
+          else if r.isRightAnchor then f.isSuffixOf (reqUrl r q)
+          else (findSub f (reqUrl r q)).isSome := by
+        funext f; unfold itemTest reqUrl Rule.isLeftAnchor Rule.isRightAnchor Rule.matchCase
+        simp [hc', hr']
+      rw [hit]
+      cases r.isLeftAnchor <;> cases r.isRightAnchor <;> simp
+
+/-- `check_options` of a rule without domain options only reads the mask -/
+theorem checkOptions_mask (r s : Rule) (q : Request) (hm : r.mask = s.mask)
+    (h1 : r.domains = none) (h2 : r.notDomains = none) (h3 : s.domains = none) (h4 : s.notDomains = none) :
+    checkOptions r q = checkOptions s q := by
+  unfold checkOptions checkCptAllowed Rule.isBadfilter Rule.forHttp Rule.forHttps Rule.firstParty
+    Rule.thirdParty Rule.isException
+  simp only [hm, h1, h2, h3, h4]
+
+private theorem any_const {α} (g : List α) (p : α → Bool) (b : Bool) (hne : g ≠ [])
+    (h : ∀ x ∈ g, p x = b) : g.any p = b := by
+  cases g with
+  | nil => exact absurd rfl hne
+  | cons x xs =>
+    cases b with
+    | true => simp [h x (List.mem_cons_self ..)]
+    | false =>
+      simp only [List.any_eq_false]
+      intro y hy; simpa using h y hy
+
+/-- the hypotheses under which the optimiser fuses a group (what `select` and `group_by_criteria`
+    guarantee), plus well-formedness of the pattern parts -/
+structure Fusable (base : Rule) (g : List Rule) : Prop where
+  ne : g ≠ []
+  mask : ∀ f ∈ g, f.mask = base.mask
+  tag : ∀ f ∈ g, f.tag = base.tag
+  sel : ∀ f ∈ g, selectOpt f = true
+  wf : ∀ f ∈ g, WFPart f
+  baseSel : selectOpt base = true
+
+theorem fuse_mask (base : Rule) (g : List Rule) (h : Fusable base g) : (fuse base g).mask = base.mask := by
+  unfold fuse
+  simp only
+  have h1 : g.any Rule.isRegex = base.isRegex :=
+    any_const g _ _ h.ne (fun f hf => by unfold Rule.isRegex; rw [h.mask f hf])
+  have h2 : g.any Rule.isCompleteRegex = base.isCompleteRegex :=
+    any_const g _ _ h.ne (fun f hf => by unfold Rule.isCompleteRegex; rw [h.mask f hf])
+  rw [h1, h2]
+  unfold Rule.isRegex Rule.isCompleteRegex has
+  rw [setBit_same, setBit_same]
+
+private theorem selectOpt_fields {f : Rule} (h : selectOpt f = true) :
+    f.domains = none ∧ f.notDomains = none ∧ f.isHostnameAnchor = false := by
+  unfold selectOpt at h
+  simp only [Bool.and_eq_true, Option.isNone_iff_eq_none, Bool.not_eq_true'] at h
+  exact ⟨h.1.1.1.1, h.1.1.1.2, h.1.1.2⟩
+
+/-- the items of the fused pattern part -/
+theorem fuse_items (base : Rule) (g : List Rule) :
+    (fuse base g).filter.items =
+      if g.any (fun f => f.filter == .empty) then [] else g.flatMap (fun f => f.filter.items) := by
+  unfold fuse
+  simp only
+  split
+  · rfl
+  · split
+    · rename_i h; rw [h]; rfl
+    · rename_i s h; rw [h]; rfl
+    · rfl
+
+/-- **a fused rule matches exactly when one of its members does** — every fusable matcher path,
+    `Simple` / `AnyOf` / empty patterns, any group size. -/
+theorem fuse_matches (base : Rule) (g : List Rule) (q : Request) (h : Fusable base g) :
+    (fuse base g).matches q = g.any (fun f => f.matches q) := by
+  have hm := fuse_mask base g h
+  obtain ⟨hbd, hbn, hbh⟩ := selectOpt_fields h.baseSel
+  have hfd : (fuse base g).domains = none := by unfold fuse; exact hbd
+  have hfn : (fuse base g).notDomains = none := by unfold fuse; exact hbn
+  have hfh : (fuse base g).isHostnameAnchor = false := by
+    unfold Rule.isHostnameAnchor; rw [hm]; exact hbh
+  -- options: identical for every member and the fused rule
+  have hopt : ∀ f ∈ g, checkOptions f q = checkOptions (fuse base g) q := by
+    intro f hf
+    obtain ⟨h1, h2, _⟩ := selectOpt_fields (h.sel f hf)
+    exact checkOptions_mask f _ q (by rw [h.mask f hf, hm]) h1 h2 hfd hfn
+  -- patterns
+  have hpat : ∀ f ∈ g, checkPattern f q = (f.filter.items.isEmpty ||
+      f.filter.items.any (itemTest base.mask q) || (base.isCompleteRegex && f.rx)) := by
+    intro f hf
+    obtain ⟨_, _, h3⟩ := selectOpt_fields (h.sel f hf)
+    rw [checkPattern_items f q h3, h.mask f hf]
+    unfold Rule.isCompleteRegex; rw [h.mask f hf]
+  have hfp : checkPattern (fuse base g) q = ((fuse base g).filter.items.isEmpty ||
+      (fuse base g).filter.items.any (itemTest base.mask q) || (base.isCompleteRegex && g.any (·.rx))) := by
+    rw [checkPattern_items _ q hfh, hm]
+    unfold Rule.isCompleteRegex; rw [hm]
+    unfold fuse; rfl
+  unfold Rule.matches
+  rw [hfp, fuse_items]
+  -- split on whether some member has an empty pattern
+  cases hany : g.any (fun f => f.filter == .empty) with
+  | true =>
+    simp only [if_true, List.isEmpty_nil, Bool.true_or, Bool.and_true]
+    simp only [List.any_eq_true] at hany
+    obtain ⟨e, he, hemp⟩ := hany
+    have hemp' : e.filter = .empty := by simpa using hemp
+    rw [Bool.eq_iff_iff]
+    simp only [List.any_eq_true, Bool.and_eq_true]
+    constructor
+    · intro ho
+      refine ⟨e, he, ?_, ?_⟩
+      · rw [hopt e he]; exact ho
+      · rw [hpat e he, hemp']; simp [FilterPart.items]
+    · rintro ⟨f, hf, ho, _⟩
+      rw [← hopt f hf]; exact ho
+  | false =>
+    simp only [Bool.false_eq_true, if_false]
+    simp only [List.any_eq_false, beq_iff_eq] at hany
+    have hne : ∀ f ∈ g, f.filter.items.isEmpty = false := by
+      intro f hf
+      have := items_ne_nil (h.wf f hf) (hany f hf)
+      cases hi : f.filter.items with
+      | nil => exact absurd hi this
+      | cons _ _ => rfl
+    have hflat : (g.flatMap (fun f => f.filter.items)).isEmpty = false := by
+      cases g with
+      | nil => exact absurd rfl h.ne
+      | cons x xs =>
+        have := hne x (List.mem_cons_self ..)
+        cases hi : x.filter.items with
+        | nil => rw [hi] at this; cases this
+        | cons a as => simp [hi]
+    rw [hflat, List.any_flatMap]
+    rw [Bool.eq_iff_iff]
+    simp only [Bool.false_or, Bool.and_eq_true, Bool.or_eq_true, List.any_eq_true]
+    constructor
+    · rintro ⟨ho, hp⟩
+      rcases hp with ⟨f, hf, x, hx, hx2⟩ | ⟨hc, f, hf, hrx⟩
+      · refine ⟨f, hf, by rw [hopt f hf]; exact ho, ?_⟩
+        rw [hpat f hf, hne f hf]
+        simp only [Bool.false_or, Bool.or_eq_true, List.any_eq_true]
+        exact Or.inl ⟨x, hx, hx2⟩
+      · refine ⟨f, hf, by rw [hopt f hf]; exact ho, ?_⟩
+        rw [hpat f hf]; simp [hc, hrx]
+    · rintro ⟨f, hf, ho, hp⟩
+      refine ⟨by rw [← hopt f hf]; exact ho, ?_⟩
+      rw [hpat f hf, hne f hf] at hp
+      simp only [Bool.false_or, Bool.or_eq_true, List.any_eq_true, Bool.and_eq_true] at hp
+      rcases hp with ⟨x, hx, hx2⟩ | ⟨hc, hrx⟩
+      · exact Or.inl ⟨f, hf, x, hx, hx2⟩
+      · exact Or.inr ⟨hc, f, hf, hrx⟩
+
+/-- the tag gate of a fused rule is the common tag gate of its members -/
+theorem fuse_tagOk (base : Rule) (g : List Rule) (T : List Str) (h : Fusable base g) :
+    ∀ f ∈ g, tagOk (fuse base g) T = tagOk f T := by
+  intro f hf
+  unfold tagOk
+  have : (fuse base g).tag = base.tag := by unfold fuse; rfl
+  rw [this, h.tag f hf]
+
+/-- fused rules stay fusable / well-formed (optimising twice is harmless) -/
+theorem fuse_wf (base : Rule) (g : List Rule) : WFPart (fuse base g) := by
+  unfold WFPart fuse
+  simp only
+  split
+  · simp
+  · split <;> simp_all
+
+/-! ### the per-bucket optimiser -/
+
+/-- "this rule is active and matches" — what `check` / `check_all` test per stored rule -/
+def okFor (q : Request) (T : List Str) (r : Rule) : Bool := r.matches q && tagOk r T
+
+/-- invariant of the grouping fold (`insert_dup` into `to_fuse`) -/
+private structure GroupInv (processed : List Rule) (gs : List (List Rule)) : Prop where
+  ne : ∀ g ∈ gs, g ≠ []
+  same : ∀ g ∈ gs, ∀ b, g.head? = some b → ∀ x ∈ g, sameGroup b x = true
+  mem : ∀ x, x ∈ gs.flatten ↔ x ∈ processed
+
+private theorem any_congr' {α} (l : List α) (p p' : α → Bool) (h : ∀ x ∈ l, p x = p' x) :
+    l.any p = l.any p' := by
+  induction l with
+  | nil => rfl
+  | cons x xs ih =>
+    simp only [List.any_cons]
+    rw [h x (List.mem_cons_self ..), ih (fun y hy => h y (List.mem_cons_of_mem _ hy))]
+
+private theorem addToGroups_inv (processed : List Rule) (gs : List (List Rule)) (r : Rule)
+    (h : GroupInv processed gs) : GroupInv (processed ++ [r]) (addToGroups gs r) := by
+  unfold addToGroups
+  by_cases hany : gs.any (isHome r) = true
+  · simp only [hany, if_true]
+    refine ⟨?_, ?_, ?_⟩
+    · intro g hg
+      simp only [List.mem_map] at hg
+      obtain ⟨g0, hg0, rfl⟩ := hg
+      by_cases hhome : isHome r g0 = true
+      · simp [hhome]
+      · simp only [hhome, Bool.false_eq_true, if_false]; exact h.ne g0 hg0
+    · intro g hg b hb x hx
+      simp only [List.mem_map] at hg
+      obtain ⟨g0, hg0, rfl⟩ := hg
+      by_cases hhome : isHome r g0 = true
+      · simp only [hhome, if_true] at hb hx
+        have hne := h.ne g0 hg0
+        cases g0 with
+        | nil => exact absurd rfl hne
+        | cons y ys =>
+          simp only [List.cons_append, List.head?_cons, Option.some.injEq] at hb
+          subst hb
+          simp only [List.cons_append, List.mem_cons, List.mem_append, List.not_mem_nil, or_false] at hx
+          rcases hx with rfl | hx | rfl
+          · exact h.same _ hg0 _ rfl _ (List.mem_cons_self ..)
+          · exact h.same _ hg0 _ rfl _ (List.mem_cons_of_mem _ hx)
+          · simpa [isHome] using hhome
+      · simp only [hhome, Bool.false_eq_true, if_false] at hb hx
+        exact h.same g0 hg0 b hb x hx
+    · intro x
+      simp only [List.mem_flatten, List.mem_map, List.mem_append, List.mem_singleton]
+      constructor
+      · rintro ⟨g, ⟨g0, hg0, rfl⟩, hx⟩
+        by_cases hhome : isHome r g0 = true
+        · simp only [hhome, if_true] at hx
+          rcases List.mem_append.1 hx with hx | hx
+          · exact Or.inl ((h.mem x).1 (List.mem_flatten.2 ⟨g0, hg0, hx⟩))
+          · exact Or.inr (by simpa using hx)
+        · simp only [hhome, Bool.false_eq_true, if_false] at hx
+          exact Or.inl ((h.mem x).1 (List.mem_flatten.2 ⟨g0, hg0, hx⟩))
+      · rintro (hx | rfl)
+        · obtain ⟨g0, hg0, hx0⟩ := List.mem_flatten.1 ((h.mem x).2 hx)
+          refine ⟨_, ⟨g0, hg0, rfl⟩, ?_⟩
+          by_cases hhome : isHome x g0 = true
+          all_goals (by_cases hh : isHome r g0 = true)
+          all_goals (first | (simp only [hh, if_true]; exact List.mem_append_left _ hx0)
+                           | (simp only [hh, Bool.false_eq_true, if_false]; exact hx0))
+        · simp only [List.any_eq_true] at hany
+          obtain ⟨g0, hg0, hhome⟩ := hany
+          refine ⟨_, ⟨g0, hg0, rfl⟩, ?_⟩
+          simp [hhome]
+  · simp only [hany, Bool.false_eq_true, if_false]
+    refine ⟨?_, ?_, ?_⟩
+    · intro g hg
+      rcases List.mem_append.1 hg with hg | hg
+      · exact h.ne g hg
+      · simp only [List.mem_singleton] at hg; subst hg; simp
+    · intro g hg b hb x hx
+      rcases List.mem_append.1 hg with hg | hg
+      · exact h.same g hg b hb x hx
+      · simp only [List.mem_singleton] at hg; subst hg
+        simp only [List.head?_cons, Option.some.injEq] at hb; subst hb
+        simp only [List.mem_singleton] at hx; subst hx
+        simp [sameGroup]
+    · intro x
+      simp only [List.flatten_append, List.mem_append, List.flatten_cons, List.flatten_nil,
+        List.append_nil, List.mem_singleton]
+      rw [h.mem x]
+
+private theorem groupRules_inv (rs : List Rule) : GroupInv rs (groupRules rs) := by
+  unfold groupRules
+  suffices h : ∀ (processed : List Rule) (gs : List (List Rule)), GroupInv processed gs →
+      GroupInv (processed ++ rs) (rs.foldl addToGroups gs) by
+    simpa using h [] [] ⟨by simp, by simp, by simp⟩
+  induction rs with
+  | nil => intro p gs h; simpa using h
+  | cons r rs ih =>
+    intro p gs h
+    simp only [List.foldl_cons]
+    have := ih (p ++ [r]) (addToGroups gs r) (addToGroups_inv p gs r h)
+    simpa using this
+
+private theorem any_and_const {α} (g : List α) (m : α → Bool) (c : Bool) :
+    g.any (fun f => m f && c) = (g.any m && c) := by
+  cases c <;> simp
+
+/-- **optimising a bucket preserves "some active rule of the bucket matches"**, for every bucket. -/
+theorem optimizeRules_any (rs : List Rule) (q : Request) (T : List Str) (hwf : ∀ f ∈ rs, WFPart f) :
+    (optimizeRules rs).any (okFor q T) = rs.any (okFor q T) := by
+  unfold optimizeRules sortById
+  simp only
+  rw [(List.mergeSort_perm _ _).any_eq]
+  have inv := groupRules_inv (rs.filter selectOpt)
+  -- a fused group behaves like its members
+  have hfuse : ∀ g ∈ groupRules (rs.filter selectOpt), ∀ b, g.head? = some b →
+      okFor q T (fuse b g) = g.any (okFor q T) := by
+    intro g hg b hb
+    have hbg : b ∈ g := List.mem_of_mem_head? (by rw [hb]; rfl)
+    have hin : ∀ x ∈ g, x ∈ rs.filter selectOpt := fun x hx => (inv.mem x).1 (List.mem_flatten.2 ⟨g, hg, hx⟩)
+    have hF : Fusable b g := {
+      ne := inv.ne g hg
+      mask := fun f hf => by
+        have := inv.same g hg b hb f hf
+        simp only [sameGroup, Bool.and_eq_true, beq_iff_eq] at this; exact this.1.symm
+      tag := fun f hf => by
+        have := inv.same g hg b hb f hf
+        simp only [sameGroup, Bool.and_eq_true, beq_iff_eq] at this; exact this.2.symm
+      sel := fun f hf => (List.mem_filter.1 (hin f hf)).2
+      wf := fun f hf => hwf f (List.mem_filter.1 (hin f hf)).1
+      baseSel := (List.mem_filter.1 (hin b hbg)).2 }
+    unfold okFor
+    rw [fuse_matches b g q hF]
+    have : g.any (fun f => f.matches q && tagOk f T) = g.any (fun f => f.matches q && tagOk (fuse b g) T) := by
+      apply any_congr'
+      intro f hf; rw [fuse_tagOk b g T hF f hf]
+    rw [this, any_and_const]
+  -- fused ++ singles cover the selected rules
+  have hcover : ((((groupRules (rs.filter selectOpt)).filter (·.length > 1)).filterMap
+        (fun g => g.head?.map (fun b => fuse b g))).any (okFor q T) ||
+      (((groupRules (rs.filter selectOpt)).filter (·.length ≤ 1)).flatten).any (okFor q T))
+      = (rs.filter selectOpt).any (okFor q T) := by
+    rw [Bool.eq_iff_iff, Bool.or_eq_true, List.any_eq_true, List.any_eq_true, List.any_eq_true]
+    constructor
+    · rintro (⟨f, hf, hok⟩ | ⟨x, hx, hok⟩)
+      · rw [List.mem_filterMap] at hf
+        obtain ⟨g, hg, hfg⟩ := hf
+        have hg' := (List.mem_filter.1 hg).1
+        cases hh : g.head? with
+        | none => rw [hh] at hfg; cases hfg
+        | some b =>
+          rw [hh] at hfg
+          simp only [Option.map_some, Option.some.injEq] at hfg
+          subst hfg
+          rw [hfuse g hg' b hh, List.any_eq_true] at hok
+          obtain ⟨x, hx, hxo⟩ := hok
+          exact ⟨x, (inv.mem x).1 (List.mem_flatten.2 ⟨g, hg', hx⟩), hxo⟩
+      · obtain ⟨g, hg, hxg⟩ := List.mem_flatten.1 hx
+        exact ⟨x, (inv.mem x).1 (List.mem_flatten.2 ⟨g, (List.mem_filter.1 hg).1, hxg⟩), hok⟩
+    · rintro ⟨x, hx, hok⟩
+      obtain ⟨g, hg, hxg⟩ := List.mem_flatten.1 ((inv.mem x).2 hx)
+      by_cases hl : g.length > 1
+      · left
+        have hne := inv.ne g hg
+        cases hgc : g with
+        | nil => exact absurd hgc hne
+        | cons b tl =>
+          have hh : g.head? = some b := by rw [hgc]; rfl
+          refine ⟨fuse b g, ?_, ?_⟩
+          · rw [List.mem_filterMap]
+            exact ⟨g, List.mem_filter.2 ⟨hg, by simpa using hl⟩, by rw [hh]; rfl⟩
+          · rw [hfuse g hg b hh, List.any_eq_true]; exact ⟨x, hxg, hok⟩
+      · right
+        exact ⟨x, List.mem_flatten.2 ⟨g, List.mem_filter.2 ⟨hg, by simpa using Nat.le_of_not_gt hl⟩, hxg⟩, hok⟩
+  -- put the three parts together
+  have hsplit : rs.any (okFor q T) = ((rs.filter selectOpt).any (okFor q T) ||
+      (rs.filter (fun r => !selectOpt r)).any (okFor q T)) := by
+    rw [Bool.eq_iff_iff]
+    simp only [Bool.or_eq_true, List.any_eq_true, List.mem_filter, Bool.not_eq_true']
+    constructor
+    · rintro ⟨x, hx, h⟩
+      cases hs : selectOpt x with
+      | true => exact Or.inl ⟨x, ⟨hx, hs⟩, h⟩
+      | false => exact Or.inr ⟨x, ⟨hx, hs⟩, h⟩
+    · rintro (⟨x, ⟨hx, _⟩, h⟩ | ⟨x, ⟨hx, _⟩, h⟩) <;> exact ⟨x, hx, h⟩
+  rw [hsplit, ← hcover, List.any_append, List.any_append]
+  generalize (((groupRules (rs.filter selectOpt)).filter (·.length > 1)).filterMap
+        (fun g => g.head?.map (fun b => fuse b g))).any (okFor q T) = a
+  generalize (rs.filter (fun r => !selectOpt r)).any (okFor q T) = b
+  generalize (((groupRules (rs.filter selectOpt)).filter (·.length ≤ 1)).flatten).any (okFor q T) = c
+  cases a <;> cases b <;> cases c <;> rfl
+
 end Adb.Net
